@@ -691,6 +691,8 @@ class Ev:
             return x ** y
         if isinstance(op, ast.FloorDiv) and x.is_Integer and y.is_Integer:
             return sp.Integer(int(x) // int(y))
+        if isinstance(op, ast.FloorDiv):
+            return sp.floor(x / y)
         if isinstance(op, ast.Mod) and x.is_Integer and y.is_Integer:
             return sp.Integer(int(x) % int(y))
         if isinstance(op, ast.LShift) and x.is_Integer and y.is_Integer:
@@ -1096,7 +1098,24 @@ class Ev:
     def call(self, f, args, kwargs, n=None, mod=None):
         if isinstance(f, FuncV):
             if f.ref in self.intr:
-                return self.intr[f.ref](self, ([f.bound] if isinstance(f.bound, Obj) else []) + args, kwargs)
+                kw = TrackedKw(kwargs)
+                r = self.intr[f.ref](self, ([f.bound] if isinstance(f.bound, Obj) else []) + args, kw)
+                # the rule's model stands for the whole function: a keyword must at least name one of its parameters
+                unread = set(kwargs) - kw.read - set(getattr(self.intr[f.ref], "kw", None) or ())
+                try:
+                    fd_ = self.model.func(f.ref)
+                    a_ = fd_.args
+                    if a_.kwarg is None:
+                        unread -= {x.arg for x in a_.posonlyargs + a_.args + a_.kwonlyargs}
+                        unread_bad = sorted(set(kwargs) - {x.arg for x in a_.args + a_.kwonlyargs})
+                        if unread_bad:
+                            raise RaisedV("TypeError")
+                        unread = set()
+                except (KeyError, AnalysisError):
+                    pass
+                if unread:
+                    raise self.err(f"call to {f.ref} with keyword(s) {sorted(unread)} the rule's model of that function does not look at", n, mod)
+                return r
             mname, q = f.ref.split(":")
             fmod = self.model.mods[mname]
             fd = fmod.funcs[q]
@@ -1872,6 +1891,13 @@ def lib_int(ev, a, k, n, mod):
             raise RaisedV("ValueError")
     if is_sym(v) and v.is_Rational:
         return sp.Integer(int(v))
+    if is_sym(v):
+        # truncation toward zero: floor for a non-negative argument, an opaque INT atom otherwise
+        if v.is_integer:
+            return v
+        if isinstance(v, sp.Function) and getattr(v.func, "__name__", "") in ("ROUND", "RINT"):
+            return v
+        return sp.floor(v) if v.is_nonnegative else sp.Function("INT")(v)
     raise ev.err("int() of a non-constant", n, mod)
 
 
@@ -2673,6 +2699,43 @@ def lib_eye(ev, a, k, n, mod):
     return out
 
 
+def lib_clip(ev, a, k, n, mod):
+    x = a[0]
+    lo = a[1] if len(a) > 1 else k.get("a_min", k.get("min"))
+    hi = a[2] if len(a) > 2 else k.get("a_max", k.get("max"))
+    def one(v):
+        v = as_sym(v)
+        l_, h_ = (None if b is None else as_sym(b) for b in (lo, hi))
+        if v.is_number and all(b is None or b.is_number for b in (l_, h_)):
+            if l_ is not None and v < l_:
+                v = l_
+            if h_ is not None and v > h_:
+                v = h_
+            return v
+        return sp.Function("CLIP")(v, l_ if l_ is not None else sp.Symbol("NONE"), h_ if h_ is not None else sp.Symbol("NONE"))
+    if isinstance(x, Tup):
+        return Tup([one(i) for i in x.items], x.kind)
+    if isinstance(x, ArrV):
+        out = ArrV(x.batch, x.shape, one(x.fill))
+        out.cells = {kk: one(v) for kk, v in x.cells.items()}
+        return out
+    return one(x)
+
+
+lib_clip.kw = {"a_min", "a_max", "min", "max"}
+
+
+def lib_minmax2(name):
+    def f(ev, a, k, n, mod):
+        x, y = as_sym(a[0]), as_sym(a[1])
+        if x.is_number and y.is_number:
+            return (sp.Max if name == "MAXIMUM" else sp.Min)(x, y)
+        return sp.Function(name)(x, y)
+    return f
+
+
+LIB.update({"numpy.clip": lib_clip, "ndarray.clip": lib_clip, "numpy.maximum": lib_minmax2("MAXIMUM"), "numpy.minimum": lib_minmax2("MINIMUM"),
+            "numpy.fmax": lib_minmax2("MAXIMUM"), "numpy.fmin": lib_minmax2("MINIMUM")})
 LIB.update({"numpy.zeros_like": lib_zeros_like, "numpy.ones_like": lib_ones_like, "numpy.empty_like": lib_zeros_like, "numpy.eye": lib_eye,
             "numpy.identity": lib_eye, "numpy.empty": lib_zeros})
 
